@@ -26,6 +26,8 @@ func newMIDPool(min, max int32) midPool {
 	return &simpleMidPool{
 		min: min,
 		max: max,
+		// (from, to]: every identifier of the range is free
+		intervals: []interval{{from: min - 1, to: max}},
 	}
 }
 
@@ -33,13 +35,8 @@ func (m *simpleMidPool) Get() int32 {
 	m.mtx.Lock()
 	defer m.mtx.Unlock()
 	if len(m.intervals) == 0 {
-		m.intervals = []interval{
-			{from: m.min, to: m.max},
-		}
-		return m.min
-	}
-	if m.intervals[0].from == m.max {
-		return -1
+		// every identifier is outstanding
+		return m.min - 1
 	}
 	m.intervals[0].from++
 	v := m.intervals[0].from
@@ -58,7 +55,12 @@ func (m *simpleMidPool) Put(mid int32) {
 	idx := sort.Search(len(m.intervals), func(i int) bool {
 		return m.intervals[i].from >= mid
 	})
-	if idx < len(m.intervals) && (m.intervals[idx].from < mid && m.intervals[idx].to >= mid) {
+	if idx > 0 && m.intervals[idx-1].from < mid && m.intervals[idx-1].to >= mid {
+		// already free
+		return
+	}
+	if len(m.intervals) == 0 {
+		m.intervals = []interval{{from: mid - 1, to: mid}}
 		return
 	}
 
